@@ -461,6 +461,8 @@ def rule_delta_declass(S, res):
             bad += 1
             res.bad("R6.4", inst, "the global key Delta can reach the payload of %r without passing through a hash, the AEAD, the OT sender or an XOR with an own key/label" % lab, fl(s.sp),
                     witness=[fg.describe_edge(e) for e in fg.path_to(reach, hit[0])[-10:]])
+        else:
+            res.ok("R6.4", inst, fl(s.sp), "payload not reachable from Delta except through a sanitizer")
     res.floor("send_sites_checked_for_delta", n, 20)
     res.count("delta_declassifications", dict(n_san))
     if not bad:
